@@ -154,12 +154,13 @@ def more_bindings():
     r = cd.run_op_with_images("tree", [{"t": "put", "n": "a.ics", "data": b1}], {"t": "put", "n": "a.ics", "data": b2}, C)
     rec = {"id": 1, "kind": "tree", "t": "put", "n": "a.ics", "prior": "one", "opname": "replace", "expect": 0,
            "pre": r["pre"], "final": r["final"], "oper_error": r["oper_error"],
-           "images": [{"k": im["k"], "gate": im["gate"], "torn": im["torn"], "obs": im["obs"]} for im in r["images"]],
+           "images": [{"k": im["k"], "gate": im["gate"], "torn": im["torn"], "obs": im["obs"], "rerr": im.get("rerr", "")} for im in r["images"]],
            "gates": r["gates"], "nevents": r["nevents"], "basekind": "tree"}
     c0, _ = tlc.validate_traces("CrashTrace", "CrashTrace.cfg", {"ops": [copy.deepcopy(rec)], "locale": []},
                                 constants={"EnabledDevs": tlc.tla_set({})})
     bad = copy.deepcopy(rec)
-    bad["images"][len(bad["images"]) // 2]["obs"]["vis"]["a.ics"] = 424242
+    plain = [im for im in bad["images"] if im["torn"] == ""]
+    plain[len(plain) // 2]["obs"]["vis"]["a.ics"] = 424242
     c1, _ = tlc.validate_traces("CrashTrace", "CrashTrace.cfg", {"ops": [bad], "locale": []},
                                 constants={"EnabledDevs": tlc.tla_set({})})
     hit = any(v["clause"] == "neither-old-nor-new" for v in c1)
